@@ -431,7 +431,9 @@ class MarkdownNormalizer(Renderer):
             # Configure the appropriate prefix based on list type
             if element.ordered:
                 num = i + element.start
-                prefix = f"{num}. "
+                # Keep the delimiter: lists with different delimiters are different lists.
+                delimiter = ")" if element.bullet.endswith(")") else "."
+                prefix = f"{num}{delimiter} "
                 subsequent_indent = " " * (len(str(num)) + 2)
             else:
                 prefix = f"{element.bullet} "
